@@ -20,6 +20,7 @@ CONSTANTS
   WithB = TRUE
   AllOrders = TRUE
   RestartIters = {0, 1, 2}
+  MaxLeg = 9
 VIEW mcview
 INVARIANT TypeOK
 INVARIANT NoError
